@@ -53,7 +53,7 @@ def probe_points(l, h):
     return pts
 
 
-def refine(lo, hi, judge, max_boxes=6_000_000, chunk=400_000, max_refuted=20, probe_limit=300_000, region=None):
+def refine(lo, hi, judge, max_boxes=6_000_000, chunk=400_000, max_refuted=20, probe_limit=300_000, region=None, probe_dims=2):
     """lo, hi: int64 arrays [N, D] of ordinals (inclusive).  judge(lo, hi) -> (proved, refuted, describe(i) -> str[, split dimension per box])."""
     out = Outcome()
     lo = np.asarray(lo, dtype=np.int64)
@@ -89,7 +89,7 @@ def refine(lo, hi, judge, max_boxes=6_000_000, chunk=400_000, max_refuted=20, pr
             todo = open_ & ~point
             if todo.any():
                 l, h = l[todo], h[todo]
-                if l.shape[1] >= 2 and len(l) <= probe_limit and out.levels % 4 == 0:
+                if l.shape[1] >= probe_dims and len(l) <= probe_limit and out.levels % 4 == 0:
                     for p in probe_points(l, h):
                         _, ref_p, desc_p = judge(p, p)[:3]
                         out.evaluated += len(p)
